@@ -662,7 +662,7 @@ class C01(ScanProperty):
                 ('Properties.C01c', ['C01_compiled_mode_finds_specified_token', 'C01_compiled_scanner_is_specification',
                                      'C01_terminal_ids_are_pattern_order', 'C01_capstone_nonvacuous', 'C01_capstone_check_sound', 'C01_built_mode_ok', 'C01_source_rule',
                                      'C01_specification_patterns_are_the_source_patterns', 'C01_scanner_from_source_is_specification',
-                                     'C01_specification_is_semantic'])]
+                                     'C01_specification_is_semantic', 'C01_from_source_nonvacuous'])]
     COQ_TARGETS = ['Properties/C01.vo', 'Properties/C01c.vo']
     CERTS = {'quick': 40, 'thorough': 600}
     # the capstone's boolean hypotheses and its pipeline model are evaluated on explored configurations here (and only
